@@ -609,8 +609,53 @@ def isLineCommentText (text : List Char) : Bool :=
 def bumpOff (afterLineComment : Bool) (startOff : Nat) : Nat :=
   if afterLineComment ∧ startOff = 0 then 1 else startOff
 
-/-- the loop of `add_group` (after the `fix:` commit: a line comment extends to the end of its line, so whatever is
-    written next starts on a new line); the flag is `after_line_comment` -/
+/-- `State` of the scanner in `ends_in_line_comment` -/
+inductive LcState where
+  | outside
+  | inString
+  | inStringEscaped
+  | lineComment
+  | blockComment
+  | blockCommentStar
+  deriving Repr, DecidableEq, Inhabited
+
+/-- the `while let Some(c) = chars.next()` loop of `ends_in_line_comment`: the state behind the text. Outside of strings
+    and comments `//` and `/*` are consumed as a whole (`chars.peek()` / `chars.next()`) -/
+def lcScan : LcState → List Char → LcState
+  | s, [] => s
+  | .outside, c :: rest =>
+    if c = '"' then lcScan .inString rest
+    else if c = '/' then
+      match rest with
+      | [] => .outside
+      | d :: rest' =>
+        if d = '/' then lcScan .lineComment rest'
+        else if d = '*' then lcScan .blockComment rest'
+        else lcScan .outside (d :: rest')
+    else lcScan .outside rest
+  | .inString, c :: rest =>
+    if c = '\\' then lcScan .inStringEscaped rest
+    else if c = '"' then lcScan .outside rest
+    else lcScan .inString rest
+  | .inStringEscaped, _ :: rest => lcScan .inString rest
+  | .lineComment, c :: rest => if c = '\n' then lcScan .outside rest else lcScan .lineComment rest
+  | .blockComment, c :: rest => if c = '*' then lcScan .blockCommentStar rest else lcScan .blockComment rest
+  | .blockCommentStar, c :: rest =>
+    if c = '/' then lcScan .outside rest
+    else if c = '*' then lcScan .blockCommentStar rest
+    else lcScan .blockComment rest
+
+/-- `ends_in_line_comment`: does the written text — the content of a block, which starts outside of any string or
+    comment — end inside a `//` comment? -/
+def endsInLineComment (text : List Char) : Bool := lcScan .outside text == .lineComment
+
+/-- `if end_offset == 0 && ends_in_line_comment(&item_text) { 1 } else { end_offset }` -/
+def endOffOf (endOff : Nat) (text : List Char) : Nat :=
+  if endOff = 0 ∧ endsInLineComment text then 1 else endOff
+
+/-- the loop of `add_group` (after the `fix:` commits: a line comment extends to the end of its line, so whatever is
+    written next - the next item, or the `/end` of the block whose content ends in the comment - starts on a new
+    line); the flag is `after_line_comment` -/
 def addGroupGo (indent : Nat) : Bool → List TagInfo → List Char
   | _, [] => []
   | alc, item :: rest =>
@@ -621,7 +666,10 @@ def addGroupGo (indent : Nat) : Bool → List TagInfo → List Char
           addGroupGo indent (isLineCommentText item.text) rest
     else
       addWhitespace indent (bumpOff alc item.startOff) ++ (if item.isBlock then "/begin ".toList else []) ++ item.tag ++
-        item.text ++ (if item.isBlock then addWhitespace indent item.endOff ++ "/end ".toList ++ item.tag else []) ++
+        item.text ++
+        (if item.isBlock then
+          addWhitespace indent (endOffOf item.endOff item.text) ++ "/end ".toList ++ item.tag
+         else []) ++
         addGroupGo indent false rest
 
 /-- `add_group` (elements from include files are outside this model: `incfile = None` everywhere) -/
